@@ -3,6 +3,24 @@
 import json, os
 
 CLAIMS = {
+ "C05": {
+  "text": "Decides, for every program and operand: (a) no panic-capable construct (overflow/bounds/division Assert, panicking std call, panic!/unreachable!) is reachable from Vm::{exec,eval,..}/step_op* unless it is discharged by a structural rule or by a reviewed table line whose recorded dominating guards are re-verified on each run; an Assert(Overflow) site covers both build modes; (b) every function that can mutate the inner vector of Stack/Memory/Repeat or the parent-memory stack is enumerated and growth is only reachable under the right comparison with the right limit constant (4096/10240/4096/1). This is an exhaustive enumeration over all paths of the type-checked program, which no finite test set gives. It is a review gate: a new unguarded panic-capable site, a removed/weakened guard or a new writer is reported.",
+  "note": "Trusted: std callees outside the panic table are total (listed in evidence); third-party crates; table reasons that rest on caller-side invariants (each marked in tables/panic_sites.json). Not decided: which error is returned; termination.",
+  "technique": "static analysis: call-graph reachability + MIR panic-site enumeration with dominance-based guard discharge; who-may-write rule for bounded containers",
+  "design_ref": "3/C05",
+ },
+ "C06": {
+  "text": "Same panic-path engine over the closure of the checker entry points, the predicate/mutation/bytecode decoders and BytecodeMapped, plus rule RA: every allocation sized by a value must be sized by a constant, the length of an existing collection, a min() with such, or a value compared against a limit. Decides totality on all inputs at the level of 'no reachable unreviewed panic site / no untrusted allocation size'.",
+  "note": "Trusted as for C05. Not decided: unbounded work proportional to an operand (K5 in DESIGN.md), stack exhaustion.",
+  "technique": "static analysis: call-graph reachability + MIR panic-site enumeration with dominance-based guard discharge; allocation-size provenance rule",
+  "design_ref": "3/C06",
+ },
+ "C13": {
+  "text": "The codec is generated, table-driven code; the property reduces to agreement of finite tables which is decided exactly (about 1050 obligations): the six tables recovered from MIR (TryFrom<u8>, From<opcode> for u8 + discriminants, ToBytes + bytes iterators, ParseOp, ToOpcode, short constants) agree with asm.yml read independently and with the pinned opcode table, immediates are exactly num_arg_bytes big-endian bytes both ways, and the streaming functions add no decision. Both round-trip directions and unambiguity follow by the two-line argument recorded in the evidence.",
+  "note": "Trusted: PyYAML's reading of asm.yml; rustc's lowering of match tables; tables/opcodes_pinned.json.",
+  "technique": "static analysis: table extraction from MIR switch/aggregate structure, cross-checked against the YAML specification and a pinned table",
+  "design_ref": "3/C13",
+ },
  "C20": {
   "text": "Obligation groups O1-O4 on the two bodies of essential_lock decide, for every caller and every closure, that the closure only ever runs between a successful Mutex::lock on the private field and the drop of that guard (return and unwind edges), and that no API leaks the guard or a reference. Mutual exclusion and visibility then follow from std::sync::Mutex. This is a structural proof relative to std, the right level for a 2-function wrapper whose behaviour under all schedules cannot be sampled.",
   "note": "Trusted: std::sync::Mutex, rustc's borrow/privacy checking, the fact extractor. Fairness is not decided.",
